@@ -129,6 +129,86 @@ Theorem orig_agrees_outside_findings f D T v :
 Proof. intros HD HT HP HPT. unfold eval_item_orig, check. rewrite eval_item_generic.
   rewrite (gcheck_plain_refs false f D T v HP HPT). apply gcheck_clean; assumption. Qed.
 
+(* ---------- more fuel than the tree needs changes nothing ---------- *)
+Lemma enough_fields f D (fs : list (N * idef)) (k : N) T : forallb (fun e => enough f D (snd e)) fs = true -> In (k, T) fs -> enough f D T = true.
+Proof. intros H Hin. rewrite forallb_forall in H. apply (H (k, T)). exact Hin. Qed.
+
+(* one layer of the algorithm over the function used for the sub-trees *)
+Definition gstep (ra ci : bool) (rec : defs -> idef -> value -> value) (D : defs) (T : idef) (v : value) : value :=
+  match T with
+  | ISimple p av => if is_atom p v then check_av av v else VNull
+  | IRef n av =>
+      match dlookup n D with
+      | Some T' => let r := rec D T' v in if ra then check_av av r else r
+      | None => VNull
+      end
+  | IComp fs av =>
+      match v with
+      | VCtx es => match comp_loop (rec D) fs es with Some es' => check_av av (VCtx es') | None => VNull end
+      | _ => VNull
+      end
+  | ICollSimple p av =>
+      match v with
+      | VList vs => if forallb (is_atom p) vs then coll_av ci av vs else VNull
+      | _ => VNull
+      end
+  | ICollRef n av =>
+      match v with
+      | VList vs => match dlookup n D with Some T' => coll_av ci av (map (rec D T') vs) | None => VNull end
+      | _ => VNull
+      end
+  | ICollComp fs av =>
+      match v with
+      | VList vs => match items_loop (comp_loop (rec D) fs) vs with Some vs' => coll_av ci av vs' | None => VNull end
+      | _ => VNull
+      end
+  end.
+
+Lemma gcheck_unfold ra ci f D T v : gcheck ra ci (S f) D T v = gstep ra ci (gcheck ra ci f) D T v.
+Proof. reflexivity. Qed.
+
+Definition subs (D : defs) (T : idef) : list idef :=
+  match T with
+  | IRef n _ | ICollRef n _ => match dlookup n D with Some T' => [T'] | None => [] end
+  | IComp fs _ | ICollComp fs _ => map snd fs
+  | _ => []
+  end.
+
+Lemma gstep_ext ra ci rec1 rec2 D T v : (forall T', In T' (subs D T) -> forall x, rec1 D T' x = rec2 D T' x) ->
+  gstep ra ci rec1 D T v = gstep ra ci rec2 D T v.
+Proof. intros H. unfold gstep. unfold subs in H. destruct T as [p av|n av|fs av|p av|n av|fs av]; try reflexivity.
+  - destruct (dlookup n D) as [T'|]; [|reflexivity]. rewrite (H T' (or_introl eq_refl)). reflexivity.
+  - destruct v; try reflexivity. rewrite (comp_loop_ext _ (rec2 D)); [reflexivity|].
+    intros k T x Hin. apply H. apply in_map_iff. exists (k, T). split; [reflexivity | exact Hin].
+  - destruct v as [| |vs| | |]; try reflexivity. destruct (dlookup n D) as [T'|]; [|reflexivity].
+    f_equal. apply map_ext. intros x. apply H. left. reflexivity.
+  - destruct v as [| |vs| | |]; try reflexivity.
+    rewrite (items_loop_ext _ (comp_loop (rec2 D) fs)); [reflexivity|].
+    intros es. apply comp_loop_ext. intros k T x Hin. apply H. apply in_map_iff. exists (k, T). split; [reflexivity | exact Hin]. Qed.
+
+Lemma enough_subs f D T : enough (S f) D T = true -> forall T', In T' (subs D T) -> enough f D T' = true.
+Proof. cbn [enough]. unfold subs. destruct T as [p av|n av|fs av|p av|n av|fs av]; intros H T' Hin; try destruct Hin.
+  - destruct (dlookup n D) as [T0|]; [|destruct Hin]. destruct Hin as [<-|[]]. exact H.
+  - apply in_map_iff in Hin. destruct Hin as [[k T0] [<- Hin]]. exact (enough_fields _ _ _ _ _ H Hin).
+  - destruct (dlookup n D) as [T0|]; [|destruct Hin]. destruct Hin as [<-|[]]. exact H.
+  - apply in_map_iff in Hin. destruct Hin as [[k T0] [<- Hin]]. exact (enough_fields _ _ _ _ _ H Hin). Qed.
+
+Theorem gcheck_fuel ra ci : forall f D T v, enough f D T = true -> gcheck ra ci (S f) D T v = gcheck ra ci f D T v.
+Proof. induction f as [|f IH]; intros D T v H; [discriminate|].
+  rewrite (gcheck_unfold ra ci (S f)), (gcheck_unfold ra ci f). apply gstep_ext.
+  intros T' Hin x. apply IH. exact (enough_subs f D T H T' Hin). Qed.
+
+Lemma enough_S : forall f D T, enough f D T = true -> enough (S f) D T = true.
+Proof. induction f as [|f IH]; intros D T H; [discriminate|]. destruct T as [p av|n av|fs av|p av|n av|fs av]; cbn [enough] in *; try reflexivity.
+  - destruct (dlookup n D) as [T'|]; [apply IH; exact H | reflexivity].
+  - apply forallb_forall. intros [k T] Hin. cbn [snd]. apply IH. exact (enough_fields _ _ _ _ _ H Hin).
+  - destruct (dlookup n D) as [T'|]; [apply IH; exact H | reflexivity].
+  - apply forallb_forall. intros [k T] Hin. cbn [snd]. apply IH. exact (enough_fields _ _ _ _ _ H Hin). Qed.
+
+Theorem fuel_sufficient f g D T v : enough f D T = true -> f <= g -> check g D T v = check f D T v.
+Proof. intros H Hle. induction Hle as [|g Hle IH]; [reflexivity|]. unfold check in *. rewrite <- IH. apply gcheck_fuel.
+  clear IH. induction Hle as [|g Hle IH]; [exact H | apply enough_S; exact IH]. Qed.
+
 (* ---------- null stays null ---------- *)
 Lemma check_av_null av : check_av av VNull = VNull.
 Proof. unfold check_av. destruct (av_ok av VNull); reflexivity. Qed.
